@@ -158,6 +158,29 @@ func (sn envSnap) owner(i int, name string) int {
 	return -1
 }
 
+// refPath: the first element names the nearest enclosing module binding, every further element a module held by the
+// scope reached so far (its own table only)
+func (sn envSnap) refPath(i int, path []string) (int, bool) {
+	cur := -1
+	for j := i; j >= 0 && cur < 0; j = sn.parent[j] {
+		var k int
+		if n, _ := fmt.Sscanf(sn.vals[j][path[0]], "(env %d)", &k); n == 1 {
+			cur = k
+		}
+	}
+	if cur < 0 {
+		return -1, false
+	}
+	for _, name := range path[1:] {
+		var k int
+		if n, _ := fmt.Sscanf(sn.vals[cur][name], "(env %d)", &k); n != 1 {
+			return -1, false
+		}
+		cur = k
+	}
+	return cur, true
+}
+
 func (sn envSnap) root(i int) int {
 	for sn.parent[i] >= 0 {
 		i = sn.parent[i]
@@ -175,6 +198,11 @@ func (w *envWorld) dumpAll() []string {
 
 func errStr(err error) string { return "e:" + strings.ReplaceAll(err.Error(), " ", "_") }
 
+var modulePrelude = []struct {
+	env  int
+	name string
+}{{0, "m"}, {1, "n"}, {0, "a"}, {0, "n"}}
+
 func streamEnvAPI(o *Out, r *rand.Rand, n int, thorough bool) {
 	o.Sum.Rule = "random histories (10-40 calls) over the whole env API on a growing tree of scopes: Define/DefineGlobal/Set/Get/Delete/DeleteGlobal on values and types, " +
 		"NewEnv, NewModule, GetEnvFromPath, Copy, DeepCopy, symbol listings, external lookup on/off, Addr; names include dotted names, module names, built-in type names; " +
@@ -189,8 +217,18 @@ func streamEnvAPI(o *Out, r *rand.Rand, n int, thorough bool) {
 		var hist []string
 		for s := 0; s < steps; s++ {
 			i := r.Intn(len(w.envs))
-			e := w.envs[i]
 			name := envNames[r.Intn(len(envNames))]
+			choice := r.Intn(20)
+			// every third history starts by building the module tree root{m{n}, a, n'} and asks for more paths,
+			// so that paths whose later elements name modules of enclosing scopes are common
+			if it%3 == 0 {
+				if s < len(modulePrelude) && modulePrelude[s].env < len(w.envs) {
+					i, name, choice = modulePrelude[s].env, modulePrelude[s].name, 1
+				} else if r.Intn(4) == 0 {
+					choice = 15
+				}
+			}
+			e := w.envs[i]
 			val := int64(r.Intn(10))
 			before := w.dumpAll()
 			snap := w.snapshot()
@@ -204,7 +242,7 @@ func streamEnvAPI(o *Out, r *rand.Rand, n int, thorough bool) {
 						o.Fail(Failure{Oracle: "env-never-panics", Key: "env-panic:" + op, Input: strings.Join(append(hist, op), " "), Detail: fmt.Sprint(p)})
 					}
 				}()
-				switch r.Intn(20) {
+				switch choice {
 				case 0:
 					op = fmt.Sprintf("(newenv %d)", i)
 					res = fmt.Sprintf("#%d", w.add(e.NewEnv()))
@@ -282,6 +320,9 @@ func streamEnvAPI(o *Out, r *rand.Rand, n int, thorough bool) {
 					}
 				case 15:
 					k := 1 + r.Intn(2)
+					if it%3 == 0 {
+						k = 1 + r.Intn(3)
+					}
 					path := make([]string, k)
 					for j := range path {
 						path[j] = []string{"m", "n", "a"}[r.Intn(3)]
@@ -359,6 +400,11 @@ func streamEnvAPI(o *Out, r *rand.Rand, n int, thorough bool) {
 					want, ok := snap.refType(i, name)
 					if ok != !isErr || (ok && want != res) {
 						o.Fail(Failure{Oracle: "nearest-binding", Key: "env-type-not-nearest", Input: histStr(), Detail: fmt.Sprintf("%s returned %s; nearest enclosing type binding (own table, external lookup, parent, built-in names last) is %q (found %v)", op, res, want, ok)})
+					}
+				case "path":
+					want, ok := snap.refPath(i, strings.Fields(strings.TrimSuffix(op, ")"))[2:])
+					if ok != !isErr || (ok && fmt.Sprintf("#%d", want) != res) {
+						o.Fail(Failure{Oracle: "path-lookup", Key: "env-path-resolution", Input: histStr(), Detail: fmt.Sprintf("%s returned %s; the first element names the nearest enclosing module and each further element a module of the scope reached so far: scope #%d (found %v)", op, res, want, ok)})
 					}
 				case "set":
 					own := snap.owner(i, name)
